@@ -2293,7 +2293,7 @@ class BSP:
     def _lmp_write_water_leaf_info(self, data: list[LeafWaterInfo]) -> Iterator[bytes]:
         """Write data associated with visleafs containing water."""
         add_texinfo = find_or_insert(self.texinfo)
-        for info in self.water_leaf_info:
+        for info in data:
             yield self.lump_layout['LEAFWATERDATA'].pack(info.surface_z, info.min_z, add_texinfo(info.surface_texinfo))
 
     def _lmp_read_visleafs(self, data: bytes) -> Iterator[VisLeaf]:
